@@ -60,6 +60,11 @@ def gen_cases(rng, tier):
         w = rng.choice([16, 24, 40])
         ops = rand_path_ops(rng, w / 2, w / 2, w / 2 - 2, curves=False, grid=rng.choice([64.0, 4.0, 1.0, 4096.0]))
         cases.append(("aa_spans", [i % 2, w, w] + ops))
+    # the same with quadratic and cubic segments (Model/CurveFill.v: chopping at the y extrema, curve edges as line lists)
+    for i in range(800 if tier == "quick" else 12000):
+        w = rng.choice([16, 24, 40, 100])
+        ops = rand_path_ops(rng, w / 2, w / 2, w / 2 - 2, curves=True, grid=rng.choice([64.0, 4.0, 1.0, 4096.0]))
+        cases.append(("aa_spans", [i % 2, w, w] + ops))
     k = 300 if tier == "quick" else 5000
     for i in range(k):
         w, h = rng.choice([(24, 24), (40, 30), (17, 45)])
@@ -120,11 +125,48 @@ def known_class(suite, args, out, what):
     return None
 
 
+def alpha_map(out):
+    """the blit_anti_h calls of an aa_spans output as {(x, y): alpha} over the pixels with non-zero alpha"""
+    try:
+        t = [int(x) for x in out.split()]
+    except ValueError:
+        return None
+    i, px = 0, {}
+    while i < len(t):
+        if i + 3 > len(t):
+            return None
+        x, y, n = t[i:i + 3]
+        if n < 0 or i + 3 + 2 * n + 1 > len(t):
+            return None
+        runs = t[i + 3:i + 3 + n + 1]
+        al = t[i + 3 + n + 1:i + 3 + 2 * n + 1]
+        i += 3 + 2 * n + 1
+        j = 0
+        while j < n:
+            r = runs[j]
+            if r <= 0:
+                break
+            if al[j]:
+                for k in range(r):
+                    if (x + j + k, y) in px:
+                        return None
+                    px[(x + j + k, y)] = al[j]
+            j += r
+    return px
+
+
 def relation(suite, args, mo, io):
     if mo == io or mo.strip() == "-9":
         return True
     if mo.strip() == "-1" and io.startswith("PANIC"):
         return True
+    if suite == "aa_spans":
+        from .c02 import has_curve_ops
+        if has_curve_ops(args[3:]):
+            # curve edges: the model walks the flattened line lists (see C02), touching supersampled spans may be split
+            # or joined, which changes how a row is cut into runs but not the alpha of any pixel
+            a, b = alpha_map(mo), alpha_map(io)
+            return a is not None and a == b
     if suite == "aruns":
         # the model appends: -5 dense(view of runs) -5 dense(spec); the first three segments must match the implementation
         m = mo.split("-5")
